@@ -1,8 +1,37 @@
 /-
-  Sipsp.Proofs.HdrSound — SOUNDNESS of ParseHdrLine / ParseHeaders with respect to the header grammar of
-  `Sipsp.Proofs.HdrSpec` (the converse of `parseHdrLine_spec`, `parseHeaders_block`): whatever the scanner accepts is a
-  line / block of the grammar, and the reported header is the one the grammar denotes. Generic treatment: no values
-  object, or header names that classify as a type without a dedicated value parser.
+  Sipsp.Proofs.HdrSound — property C07, SOUNDNESS of ParseHdrLine / ParseHeaders with respect to the header grammar of
+  `Sipsp.Proofs.HdrSpec` (`NameRun`, `WsRun`, `Lws`, `ValRun`, `Eol`, `HdrLineAt`, `EmptyLine`, `HdrBlock`): the
+  converse of `parseHdrLine_spec` / `parseHeaders_block`. The grammar of HdrSpec did NOT have to be widened: the
+  scanner accepts exactly its lines and blocks.
+
+  Scope: ALL buffers of at most 65,535 bytes, ALL offsets, a new header object / a list object in the state of a new
+  or reset one (any capacity), generic treatment: no values object (`hb = none`), or a values object and a name — the
+  text from the line start up to the first SP / HT / CR / LF / colon, `skipTokenDelim b o 58` — that classifies as a
+  type without a dedicated value parser (`IsOther`); for blocks `HsGeneric`: no values object, or no position that is
+  the start offset or follows a CR / LF carries such a typed name.
+
+  Proved (no holes):
+  * lexical converses: `hs_skipCRLF_ok_eol`, `hs_skipLWS_ok_lws`, `hs_skipLWS_eoh`, `hs_skipLWS_verdicts`,
+    `hs_skipTokenDelim_run`, `hs_skipWS_run`, `hs_skipToken_run` (what the scanners skip is what the grammar says).
+  * `hs_val_cases`, `hs_body_cases`, `hs_hlName_cases`, `hs_nameEnd_cases`: every outcome of the value loop, of the
+    part after the colon, of the name states.
+  * `hs_parseHdrLine_cases` (`HsLineOut`): EVERY outcome of ParseHdrLine — OK and a line of the grammar whose denoted
+    header is the one reported (values object untouched); "empty" and the empty line; "more bytes"; "bad character".
+  * (1) `hs_line_sound`, `hs_line_sound_explicit` (positions n, c, v, ve, p spelled out; the byte at the returned offset
+    exists and is not SP / HT), `hs_line_empty`, `hs_line_verdicts`, `hs_line_ok_iff`, `hs_line_empty_iff`,
+    `hs_line_reject`, `hs_lineAt_type`, `hs_lineAt_unique`, `hs_emptyLine_unique`, `hs_line_not_empty`.
+  * (2) `hs_block_cases`, `hs_block_sound` (OK / "empty" ⇒ `[o, e)` is a `HdrBlock` and the list object is
+    `acceptAll` of its headers), `hs_block_verdicts`, `hs_block_report` (count = number of lines, stored headers = the
+    first `k` lines in order, type flags, first-of-type table), `hs_block_unique`.
+  * (3) `hs_block_ok_iff`, `hs_block_accepts_iff`, `hs_block_empty_iff`: ParseHeaders accepts iff the text is a block
+    of the grammar.
+  * resumed calls, one suspension, no values object: `hs_line_resumed_sound`, `hs_block_resumed_sound` (through
+    `parseHdrLine_resume` / `parseHeaders_resume`).
+
+  NOT proved here: soundness for the eight typed header kinds when a values object is supplied (their value parsers
+  decide; see `Sipsp.Proofs.HdrTyped` for the completeness side); a variant of the generic hypothesis phrased on the
+  REPORTED type (`IsOther h.type`) instead of on the text; resumed calls with more than one suspension or with a
+  values object; buffers above 65,535 bytes (offsets are 16-bit in the header object).
 -/
 import Sipsp.Proofs.HdrSpec
 
@@ -162,5 +191,1226 @@ theorem hs_skipToken_run (b : Buf) (i : Nat) : TokenRun b i (skipToken b i) := b
     by_cases hk : k = i
     · subst hk; exact ⟨c, hb, by simpa using hl⟩
     · exact ih k (by omega) h2
+
+/-! ### the value loop -/
+
+theorem hs_hlValEnd_ok {b : Buf} {i n crl : Nat} (h : Hdr) (hb : Option PHdrVals)
+    (hs : skipLWS b i 0 = (n, crl, .ok)) : hlValEnd b i h hb = .cont (n + 1) ({ h with state := .val }, hb) := by
+  unfold hlValEnd; rw [hs]
+
+theorem hs_hlValEnd_eoh {b : Buf} {i n crl : Nat} (h : Hdr) (hb : Option PHdrVals)
+    (hs : skipLWS b i 0 = (n, crl, .eoh)) : hlValEnd b i h hb = .done (n + crl) .ok ({ h with state := .fin }, hb) := by
+  unfold hlValEnd; rw [hs]
+
+theorem hs_hlValEnd_more {b : Buf} {i n crl : Nat} (h : Hdr) (hb : Option PHdrVals)
+    (hs : skipLWS b i 0 = (n, crl, .moreBytes)) : hlValEnd b i h hb = .done n .moreBytes (h, hb) := by
+  unfold hlValEnd; rw [hs]
+
+/-- **the value loop, every outcome**: in state `hVal` just after a value byte at `v`, the loop either finishes with
+    OK — then the text from `v` is a value of the grammar (tokens separated by linear white space), ended by a line
+    end whose next byte is not SP / HT, and the value field is extended to the end of the last token — or it asks
+    for more bytes. There is no other verdict. -/
+theorem hs_val_cases (b : Buf) (hb : Option PHdrVals) (hfit : b.size ≤ 65535) :
+    ∀ (k v : Nat) (h : Hdr) (cv : UInt8), b.size - v = k → h.state = .val → h.val.offs ≤ v → h.pnc = false →
+      b[v]? = some cv → isLWSch cv = false →
+      (∃ e ve p, ∃ c2 : UInt8, ValRun b v ve p ∧ Eol b p e ∧ b[e]? = some c2 ∧ isWS c2 = false ∧
+        runLoop hlMachine b (v + 1) (h, hb) =
+          (e, .ok, ({ h with val := ⟨h.val.offs, ve - h.val.offs⟩, state := .fin }, hb))) ∨
+      (∃ e st, runLoop hlMachine b (v + 1) (h, hb) = (e, .moreBytes, st)) := by
+  intro k
+  induction k using Nat.strongRecOn with
+  | _ k ih =>
+    intro v h cv hk hst hvo hp hv hcv
+    have hvl := get?_lt hv
+    cases hv1 : b[v + 1]? with
+    | none => exact Or.inr ⟨_, _, runLoop_none hlMachine _ hv1⟩
+    | some c1 =>
+      have hge := skipToken_ge b (v + 1)
+      cases hj : b[skipToken b (v + 1)]? with
+      | none =>
+        refine Or.inr ⟨skipToken b (v + 1), (h, hb), runLoop_done hlMachine hv1 ?_⟩
+        show hlStep b (v + 1) c1 (h, hb) = _
+        unfold hlStep
+        simp only [hst, hj]
+      | some cj =>
+        have hcj := skipToken_stop b (v + 1) cj hj
+        have ht : TokenRun b v (skipToken b (v + 1)) := by
+          intro k' h1 h2
+          by_cases hk' : k' = v
+          · subst hk'; exact ⟨cv, hv, hcv⟩
+          · exact hs_skipToken_run b (v + 1) k' (by omega) h2
+        obtain ⟨c, hc, hstep⟩ := hl_token b hb v _ ht (by omega) hj hcj h hst hvo hp hfit
+        rw [hv1] at hc; cases hc
+        rcases hq : skipLWS b (skipToken b (v + 1)) 0 with ⟨n, crl, er⟩
+        have hr := skipLWS_range b _ 0 hq
+        rcases hs_skipLWS_verdicts b _ 0 hq with rfl | rfl | rfl
+        · -- another token follows
+          have hcont := hstep.trans (hs_hlValEnd_ok _ hb hq)
+          obtain ⟨_, c, hc, hcl⟩ := skipLWS_ok b _ 0 hq
+          have hjn := skipLWS_ok_gt b _ 0 hj hcj hq
+          have hnl := get?_lt hc
+          rw [runLoop_cont hlMachine hv1 (by exact hcont), if_pos (by omega)]
+          rcases ih (b.size - n) (by omega) n
+              { h with val := ⟨h.val.offs, skipToken b (v + 1) - h.val.offs⟩, state := .val } c rfl rfl
+              (by show h.val.offs ≤ n; omega) hp hc hcl with
+            ⟨e, ve, p, c2, H, he, h2, hw2, hrun⟩ | ⟨e, st, hrun⟩
+          · refine Or.inl ⟨e, ve, p, c2, ?_, he, h2, hw2, ?_⟩
+            · exact ValRun.cons v _ n ve p c ht (by omega) (hs_skipLWS_ok_lws b _ 0 hq) hjn hc hcl H
+            · rw [hrun]
+          · exact Or.inr ⟨e, st, hrun⟩
+        · -- the line end
+          obtain ⟨hl, he, c2, h2, hw2⟩ := hs_skipLWS_eoh b _ 0 hq hs_flag0
+          refine Or.inl ⟨n + crl, _, n, c2, ValRun.last v _ n ht (by omega) hl, he, h2, hw2, ?_⟩
+          exact runLoop_done hlMachine hv1 (hstep.trans (hs_hlValEnd_eoh _ hb hq))
+        · exact Or.inr ⟨n, _, runLoop_done hlMachine hv1 (hstep.trans (hs_hlValEnd_more _ hb hq))⟩
+
+/-! ### after the colon -/
+
+/-- **after the colon, every outcome** (state `hBodyStart` at `i`, value not yet started): OK with a value, OK with
+    an empty value (only linear white space up to the line end; `Val` stays unset), or more bytes wanted -/
+theorem hs_body_cases (b : Buf) (hb : Option PHdrVals) (hfit : b.size ≤ 65535) (t o n i : Nat) :
+    (∃ e v ve p, ∃ c2 : UInt8, Lws b i v ∧ ValRun b v ve p ∧ Eol b p e ∧ b[e]? = some c2 ∧ isWS c2 = false ∧
+      runLoop hlMachine b i (hdrAt t o n {} .bodyStart, hb) = (e, .ok, (hdrAt t o n ⟨v, ve - v⟩ .fin, hb))) ∨
+    (∃ e p, ∃ c2 : UInt8, Lws b i p ∧ Eol b p e ∧ b[e]? = some c2 ∧ isWS c2 = false ∧
+      runLoop hlMachine b i (hdrAt t o n {} .bodyStart, hb) = (e, .ok, (hdrAt t o n {} .fin, hb))) ∨
+    (∃ e st, runLoop hlMachine b i (hdrAt t o n {} .bodyStart, hb) = (e, .moreBytes, st)) := by
+  cases hi : b[i]? with
+  | none => exact Or.inr (Or.inr ⟨_, _, runLoop_none hlMachine _ hi⟩)
+  | some x =>
+    rcases hq : skipLWS b i 0 with ⟨v, crl, er⟩
+    have hr := skipLWS_range b i 0 hq
+    rcases hs_skipLWS_verdicts b i 0 hq with rfl | rfl | rfl
+    · -- a value starts at `v`
+      obtain ⟨_, c, hc, hcl⟩ := skipLWS_ok b i 0 hq
+      have hvl := get?_lt hc
+      have hstep : hlStep b i x (hdrAt t o n {} .bodyStart, hb) =
+          .cont (v + 1) (hdrAt t o n (PField.set v v) .val, hb) := by
+        unfold hlStep hdrAt
+        simp only
+        rw [hq]
+      have hoffs : (PField.set v v).offs = v := by unfold PField.set; exact trunc16_id (by omega)
+      rw [runLoop_cont hlMachine hi (by exact hstep), if_pos (by omega)]
+      rcases hs_val_cases b hb hfit (b.size - v) v (hdrAt t o n (PField.set v v) .val) c rfl rfl
+          (by show (PField.set v v).offs ≤ v; omega) rfl hc hcl with
+        ⟨e, ve, p, c2, H, he, h2, hw2, hrun⟩ | ⟨e, st, hrun⟩
+      · refine Or.inl ⟨e, v, ve, p, c2, hs_skipLWS_ok_lws b i 0 hq, H, he, h2, hw2, ?_⟩
+        rw [hrun]
+        show (e, Err.ok, hdrAt t o n ⟨(PField.set v v).offs, ve - (PField.set v v).offs⟩ .fin, hb) = _
+        rw [hoffs]
+      · exact Or.inr (Or.inr ⟨e, st, hrun⟩)
+    · -- the line end: empty value
+      obtain ⟨hl, he, c2, h2, hw2⟩ := hs_skipLWS_eoh b i 0 hq hs_flag0
+      refine Or.inr (Or.inl ⟨v + crl, v, c2, hl, he, h2, hw2, runLoop_done hlMachine hi ?_⟩)
+      show hlStep b i x (hdrAt t o n {} .bodyStart, hb) = _
+      unfold hlStep hdrAt
+      simp only
+      rw [hq]
+    · refine Or.inr (Or.inr ⟨v, (hdrAt t o n {} .bodyStart, hb), runLoop_done hlMachine hi ?_⟩)
+      show hlStep b i x (hdrAt t o n {} .bodyStart, hb) = .done v .moreBytes (hdrAt t o n {} .bodyStart, hb)
+      unfold hlStep hdrAt
+      simp only
+      rw [hq]
+
+/-- every outcome of ParseHdrLine on a new header object (generic treatment), by verdict -/
+def HsLineOut (b : Buf) (o : Nat) (hb : Option PHdrVals) (e : Nat) (er : Err) (h : Hdr) (hb' : Option PHdrVals) :
+    Prop :=
+  (er = .ok ∧ HdrLineAt b o e h ∧ hb' = hb) ∨
+  (er = .empty ∧ EmptyLine b o e ∧ h = { state := .fin } ∧ hb' = hb) ∨
+  er = .moreBytes ∨
+  er = .badChar
+
+/-- the same on the result triple of the loop driver -/
+def HsOutR (b : Buf) (o : Nat) (hb : Option PHdrVals) (r : Nat × Err × HLσ) : Prop :=
+  HsLineOut b o hb r.1 r.2.1 r.2.2.1 r.2.2.2
+
+/-- from the byte after the colon to the verdict, name and colon already recognised -/
+theorem hs_after_colon (b : Buf) (hb : Option PHdrVals) (hfit : b.size ≤ 65535) (o n c : Nat)
+    (hname : NameRun b o n) (hon : o < n) (hws : WsRun b n c) (hnc : n ≤ c) (hcolon : b[c]? = some 58) :
+    HsOutR b o hb (runLoop hlMachine b (c + 1) (hdrAt (getHdrType (b.extract o n)) o n {} .bodyStart, hb)) := by
+  rcases hs_body_cases b hb hfit (getHdrType (b.extract o n)) o n (c + 1) with
+    ⟨e, v, ve, p, c2, hl, H, he, h2, hw2, hrun⟩ | ⟨e, p, c2, hl, he, h2, hw2, hrun⟩ | ⟨e, st, hrun⟩
+  · rw [hrun]
+    exact Or.inl ⟨rfl, Or.inl ⟨n, c, v, ve, p, c2, hname, hon, hws, hnc, hcolon, hl, H, he, h2, hw2, rfl⟩, rfl⟩
+  · rw [hrun]
+    exact Or.inl ⟨rfl, Or.inr ⟨n, c, p, c2, hname, hon, hws, hnc, hcolon, hl, he, h2, hw2, rfl⟩, rfl⟩
+  · rw [hrun]
+    exact Or.inr (Or.inr (Or.inl rfl))
+
+/-! ### the name -/
+
+/-- `case hName:` at the first byte of a line, every outcome, ANY values object: an error / more bytes, white space
+    after a non-empty name, or the colon right after a non-empty name (then the code after the colon runs) -/
+theorem hs_hlName_all (b : Buf) (o : Nat) (hb : Option PHdrVals) (hfit : b.size ≤ 65535) :
+    (∃ e er st, hlName b o { state := .name, name := PField.set o o } hb = .done e er st ∧
+      (er = .moreBytes ∨ er = .badChar)) ∨
+    (∃ cn, o < skipTokenDelim b o 58 ∧ b[skipTokenDelim b o 58]? = some cn ∧ isWS cn = true ∧
+      hlName b o { state := .name, name := PField.set o o } hb =
+        .cont (skipTokenDelim b o 58 + 1) (hdrAt 0 o (skipTokenDelim b o 58) {} .nameEnd, hb)) ∨
+    (o < skipTokenDelim b o 58 ∧ b[skipTokenDelim b o 58]? = some 58 ∧
+      hlName b o { state := .name, name := PField.set o o } hb =
+        hlAfterColon b (skipTokenDelim b o 58 + 1) (hdrAt 0 o (skipTokenDelim b o 58) {} .bodyStart) hb) := by
+  have hge := skipTokenDelim_ge b o 58
+  unfold hlName
+  generalize skipTokenDelim b o 58 = n at *
+  dsimp only
+  cases hcn : b[n]? with
+  | none => exact Or.inl ⟨_, _, _, rfl, Or.inl rfl⟩
+  | some cn =>
+    have hnl := get?_lt hcn
+    have hnm : (PField.set o o).extend n = ⟨o, n - o⟩ := set_extend o n hge (by omega)
+    have hxp : (PField.set o o).extendPanics n = false := set_extendPanics o n hge (by omega)
+    by_cases hon : o < n
+    · have hne : (({ offs := o, len := n - o } : PField).isEmpty) = false := by
+        unfold PField.isEmpty; simp; omega
+      by_cases hw : isWS cn = true
+      · refine Or.inr (Or.inl ⟨cn, hon, rfl, hw, ?_⟩)
+        simp only [hw, ↓reduceIte, hnm, hxp, hne, Bool.false_eq_true, Bool.or_self]
+        rfl
+      · have hw' : isWS cn = false := by simpa using hw
+        by_cases h58 : cn = 58
+        · subst h58
+          refine Or.inr (Or.inr ⟨hon, rfl, ?_⟩)
+          simp only [hw', beq_self_eq_true, ↓reduceIte, hnm, hxp, hne, Bool.false_eq_true, Bool.or_self]
+          rfl
+        · have e58 : (cn == 58) = false := by simpa using h58
+          simp only [hw', e58, Bool.false_eq_true, ↓reduceIte]
+          exact Or.inl ⟨_, _, _, rfl, Or.inr rfl⟩
+    · have : n = o := by omega
+      subst this
+      have hem : (({ offs := n, len := n - n } : PField).isEmpty) = true := by
+        unfold PField.isEmpty; simp
+      by_cases hw : isWS cn = true
+      · simp only [hw, ↓reduceIte, hnm, hem]
+        exact Or.inl ⟨_, _, _, rfl, Or.inr rfl⟩
+      · have hw' : isWS cn = false := by simpa using hw
+        by_cases h58 : cn = 58
+        · subst h58
+          simp only [hw', beq_self_eq_true, ↓reduceIte, hnm, hem, Bool.false_eq_true]
+          exact Or.inl ⟨_, _, _, rfl, Or.inr rfl⟩
+        · have e58 : (cn == 58) = false := by simpa using h58
+          simp only [hw', e58, Bool.false_eq_true, ↓reduceIte]
+          exact Or.inl ⟨_, _, _, rfl, Or.inr rfl⟩
+
+/-- … and in the generic treatment the code after the colon classifies the name and hands over to the value scanner -/
+theorem hs_hlName_cases (b : Buf) (o : Nat) (hb : Option PHdrVals) (hfit : b.size ≤ 65535)
+    (hg : hb = none ∨ IsOther (getHdrType (b.extract o (skipTokenDelim b o 58)))) :
+    (∃ e er st, hlName b o { state := .name, name := PField.set o o } hb = .done e er st ∧
+      (er = .moreBytes ∨ er = .badChar)) ∨
+    (∃ cn, o < skipTokenDelim b o 58 ∧ b[skipTokenDelim b o 58]? = some cn ∧ isWS cn = true ∧
+      hlName b o { state := .name, name := PField.set o o } hb =
+        .cont (skipTokenDelim b o 58 + 1) (hdrAt 0 o (skipTokenDelim b o 58) {} .nameEnd, hb)) ∨
+    (o < skipTokenDelim b o 58 ∧ b[skipTokenDelim b o 58]? = some 58 ∧
+      hlName b o { state := .name, name := PField.set o o } hb =
+        .cont (skipTokenDelim b o 58 + 1)
+          (hdrAt (getHdrType (b.extract o (skipTokenDelim b o 58))) o (skipTokenDelim b o 58) {} .bodyStart, hb)) := by
+  rcases hs_hlName_all b o hb hfit with h1 | h1 | ⟨hon, hcn, hc⟩
+  · exact Or.inl h1
+  · exact Or.inr (Or.inl h1)
+  · have hnl := get?_lt hcn
+    exact Or.inr (Or.inr ⟨hon, hcn, hc.trans (hlAfterColon_spec b o _ _ hb hon (by omega) hfit hg)⟩)
+
+/-- `case hNameEnd:` (white space between the name and the colon), every outcome, ANY values object -/
+theorem hs_nameEnd_all (b : Buf) (o n i : Nat) (y : UInt8) (hb : Option PHdrVals) :
+    (∃ e er st, hlStep b i y (hdrAt 0 o n {} .nameEnd, hb) = .done e er st ∧ (er = .moreBytes ∨ er = .badChar)) ∨
+    (b[skipWS b i]? = some 58 ∧
+      hlStep b i y (hdrAt 0 o n {} .nameEnd, hb) =
+        hlAfterColon b (skipWS b i + 1) (hdrAt 0 o n {} .bodyStart) hb) := by
+  unfold hdrAt
+  unfold hlStep
+  dsimp only
+  generalize skipWS b i = j
+  cases hj : b[j]? with
+  | none => exact Or.inl ⟨_, _, _, rfl, Or.inl rfl⟩
+  | some c1 =>
+    by_cases h58 : c1 = 58
+    · subst h58
+      simp only [beq_self_eq_true, ↓reduceIte]
+      exact Or.inr ⟨trivial, trivial⟩
+    · have e58 : (c1 == 58) = false := by simpa using h58
+      simp only [e58, Bool.false_eq_true, ↓reduceIte]
+      exact Or.inl ⟨_, _, _, rfl, Or.inr rfl⟩
+
+/-- `case hNameEnd:`, generic treatment -/
+theorem hs_nameEnd_cases (b : Buf) (o n i : Nat) (y : UInt8) (hb : Option PHdrVals) (hfit : b.size ≤ 65535)
+    (hon : o < n) (hn : n ≤ b.size) (hg : hb = none ∨ IsOther (getHdrType (b.extract o n))) :
+    (∃ e er st, hlStep b i y (hdrAt 0 o n {} .nameEnd, hb) = .done e er st ∧ (er = .moreBytes ∨ er = .badChar)) ∨
+    (b[skipWS b i]? = some 58 ∧
+      hlStep b i y (hdrAt 0 o n {} .nameEnd, hb) =
+        .cont (skipWS b i + 1) (hdrAt (getHdrType (b.extract o n)) o n {} .bodyStart, hb)) := by
+  rcases hs_nameEnd_all b o n i y hb with h1 | ⟨h1, h2⟩
+  · exact Or.inl h1
+  · exact Or.inr ⟨h1, h2.trans (hlAfterColon_spec b o n _ hb hon hn hfit hg)⟩
+
+/-! ### the whole line -/
+
+/-- the loop of ParseHdrLine on a new header object, every outcome -/
+theorem hs_line_loop (b : Buf) (o : Nat) (hb : Option PHdrVals) (hfit : b.size ≤ 65535)
+    (hg : hb = none ∨ IsOther (getHdrType (b.extract o (skipTokenDelim b o 58)))) :
+    HsOutR b o hb (runLoop hlMachine b o (({} : Hdr), hb)) := by
+  have more : ∀ e st, HsOutR b o hb (e, .moreBytes, st) := fun _ _ => Or.inr (Or.inr (Or.inl rfl))
+  have mb : ∀ e er st, (er = .moreBytes ∨ er = .badChar) → HsOutR b o hb (e, er, st) := by
+    intro e er st h
+    rcases h with h | h
+    · exact Or.inr (Or.inr (Or.inl h))
+    · exact Or.inr (Or.inr (Or.inr h))
+  cases h0 : b[o]? with
+  | none => rw [runLoop_none hlMachine _ h0]; exact more _ _
+  | some c0 =>
+    by_cases h13 : c0 = 13
+    · subst h13
+      cases h1 : b[o + 1]? with
+      | none =>
+        rw [runLoop_done hlMachine h0 (o := o) (e := .moreBytes) (st' := (({} : Hdr), hb))
+          (by show hlStep b o 13 (({} : Hdr), hb) = _; unfold hlStep; simp only [beq_self_eq_true, ↓reduceIte, h1])]
+        exact more _ _
+      | some c1 =>
+        by_cases h10 : c1 = 10
+        · subst h10
+          rw [runLoop_done hlMachine h0 (o := o + 2) (e := .empty) (st' := ({ state := .fin }, hb))
+            (by show hlStep b o 13 (({} : Hdr), hb) = _; unfold hlStep; simp only [beq_self_eq_true, ↓reduceIte, h1])]
+          exact Or.inr (Or.inl ⟨rfl, EmptyLine.crlf o h0 h1, rfl, rfl⟩)
+        · have e10 : (c1 == 10) = false := by simpa using h10
+          rw [runLoop_done hlMachine h0 (o := o + 1) (e := .empty) (st' := ({ state := .fin }, hb))
+            (by show hlStep b o 13 (({} : Hdr), hb) = _; unfold hlStep
+                simp only [beq_self_eq_true, ↓reduceIte, h1, e10, Bool.false_eq_true])]
+          exact Or.inr (Or.inl ⟨rfl, EmptyLine.cr o c1 h0 h1 h10, rfl, rfl⟩)
+    · have e13 : (c0 == 13) = false := by simpa using h13
+      by_cases h10 : c0 = 10
+      · subst h10
+        rw [runLoop_done hlMachine h0 (o := o + 1) (e := .empty) (st' := ({ state := .fin }, hb))
+          (by show hlStep b o 10 (({} : Hdr), hb) = _; unfold hlStep
+              simp only [e13, Bool.false_eq_true, ↓reduceIte, beq_self_eq_true])]
+        exact Or.inr (Or.inl ⟨rfl, EmptyLine.lf o h0, rfl, rfl⟩)
+      · have e10 : (c0 == 10) = false := by simpa using h10
+        have hstep : hlStep b o c0 (({} : Hdr), hb) = hlName b o { state := .name, name := PField.set o o } hb := by
+          unfold hlStep; simp only [e13, e10, Bool.false_eq_true, ↓reduceIte]
+        rcases hs_hlName_cases b o hb hfit hg with ⟨e, er, st, hd, her⟩ | ⟨cn, hon, hcn, hw, hc⟩ | ⟨hon, hcn, hc⟩
+        · rw [runLoop_done hlMachine h0 (by exact hstep.trans hd)]; exact mb _ _ _ her
+        · -- white space after the name
+          have hnl := get?_lt hcn
+          rw [runLoop_cont hlMachine h0 (by exact hstep.trans hc), if_pos (by omega)]
+          cases hy : b[skipTokenDelim b o 58 + 1]? with
+          | none => rw [runLoop_none hlMachine _ hy]; exact more _ _
+          | some y =>
+            rcases hs_nameEnd_cases b o _ (skipTokenDelim b o 58 + 1) y hb hfit hon (by omega) hg with
+              ⟨e, er, st, hd, her⟩ | ⟨hcol, hc2⟩
+            · rw [runLoop_done hlMachine hy (by exact hd)]; exact mb _ _ _ her
+            · have hge := skipWS_ge b (skipTokenDelim b o 58 + 1)
+              rw [runLoop_cont hlMachine hy (by exact hc2), if_pos (by omega)]
+              refine hs_after_colon b hb hfit o _ _ (hs_skipTokenDelim_run b o) hon ?_ (by omega) hcol
+              intro k h1 h2
+              by_cases hk : k = skipTokenDelim b o 58
+              · subst hk; exact ⟨cn, hcn, hw⟩
+              · exact hs_skipWS_run b (skipTokenDelim b o 58 + 1) k (by omega) h2
+        · -- the colon right after the name
+          rw [runLoop_cont hlMachine h0 (by exact hstep.trans hc), if_pos (by omega)]
+          exact hs_after_colon b hb hfit o _ _ (hs_skipTokenDelim_run b o) hon (fun k h1 h2 => by omega)
+            (Nat.le_refl _) hcn
+
+/-- **ParseHdrLine, every outcome** (new header object; no values object, or the name — the text up to the first
+    SP / HT / CR / LF / colon — classifies as a type without a dedicated value parser):
+    * OK: the text `[o, e)` is a header line of the grammar and `h` is the header it denotes; one byte after the line
+      end is present and is not SP / HT; the values object is untouched;
+    * "empty": `[o, e)` is the empty line that ends a block (CR LF, CR + another byte, LF);
+    * otherwise the verdict is "more bytes" or "bad character". -/
+theorem hs_parseHdrLine_cases (b : Buf) (o : Nat) (hb : Option PHdrVals) (hfit : b.size ≤ 65535)
+    (hg : hb = none ∨ IsOther (getHdrType (b.extract o (skipTokenDelim b o 58)))) :
+    HsLineOut b o hb (parseHdrLine b o {} hb).1 (parseHdrLine b o {} hb).2.1 (parseHdrLine b o {} hb).2.2.1
+      (parseHdrLine b o {} hb).2.2.2 :=
+  hs_line_loop b o hb hfit hg
+
+/-- the name of a line of the grammar ends where `skipTokenDelim` stops, so the reported type is the classification
+    of the text up to the first SP / HT / CR / LF / colon -/
+theorem hs_lineAt_type {b : Buf} {o e : Nat} {h : Hdr} (H : HdrLineAt b o e h) :
+    h.type = getHdrType (b.extract o (skipTokenDelim b o 58)) ∧ h.name = ⟨o, skipTokenDelim b o 58 - o⟩ := by
+  have key : ∀ n c, NameRun b o n → o < n → WsRun b n c → n ≤ c → b[c]? = some 58 → skipTokenDelim b o 58 = n := by
+    intro n c hname hon hws hnc hcolon
+    have hnend : ∃ cn, b[n]? = some cn ∧ (isLWSch cn = true ∨ cn = 58) := by
+      by_cases h1 : n < c
+      · obtain ⟨cn, hcn, hw⟩ := hws n (Nat.le_refl _) h1
+        refine ⟨cn, hcn, Or.inl ?_⟩
+        unfold isWS at hw; unfold isLWSch
+        simp only [Bool.or_eq_true] at hw ⊢
+        rcases hw with hw | hw
+        · exact Or.inl (Or.inl (Or.inl hw))
+        · exact Or.inl (Or.inl (Or.inr hw))
+      · have : n = c := by omega
+        exact ⟨58, by rw [this]; exact hcolon, Or.inr rfl⟩
+    obtain ⟨cn, hcn, hstop⟩ := hnend
+    exact skipTokenDelim_run b o n (by omega) hname hcn hstop
+  rcases H with ⟨n, c, v, ve, p, c2, h1, h2, h3, h4, h5, _, _, _, _, _, rfl⟩ |
+    ⟨n, c, p, c2, h1, h2, h3, h4, h5, _, _, _, _, rfl⟩
+  · rw [key n c h1 h2 h3 h4 h5]; exact ⟨rfl, rfl⟩
+  · rw [key n c h1 h2 h3 h4 h5]; exact ⟨rfl, rfl⟩
+
+/-- **(1) soundness of an accepted line**: whatever ParseHdrLine accepts (OK) is a header line of the grammar, and the
+    header reported is exactly the one the grammar denotes -/
+theorem hs_line_sound (b : Buf) (o : Nat) (hb : Option PHdrVals) (hfit : b.size ≤ 65535)
+    (hg : hb = none ∨ IsOther (getHdrType (b.extract o (skipTokenDelim b o 58))))
+    {e : Nat} {h : Hdr} {hb' : Option PHdrVals} (hr : parseHdrLine b o {} hb = (e, .ok, h, hb')) :
+    HdrLineAt b o e h ∧ hb' = hb := by
+  have := hs_parseHdrLine_cases b o hb hfit hg
+  rw [hr] at this
+  rcases this with ⟨_, h1, h2⟩ | ⟨h1, _⟩ | h1 | h1
+  · exact ⟨h1, h2⟩
+  · cases h1
+  · cases h1
+  · cases h1
+
+/-- the same with the positions spelled out: name `[o, n)` (non-empty), spaces / tabs up to the colon at `c`, linear
+    white space, then either a value `[v, ve)` of tokens and linear white space or nothing, the line end at `p`, and
+    a byte after the line end that is not SP / HT (the look-ahead that tells the end of the header from a fold) -/
+theorem hs_line_sound_explicit (b : Buf) (o : Nat) (hb : Option PHdrVals) (hfit : b.size ≤ 65535)
+    (hg : hb = none ∨ IsOther (getHdrType (b.extract o (skipTokenDelim b o 58))))
+    {e : Nat} {h : Hdr} {hb' : Option PHdrVals} (hr : parseHdrLine b o {} hb = (e, .ok, h, hb')) :
+    ∃ n c p, ∃ c2 : UInt8, NameRun b o n ∧ o < n ∧ WsRun b n c ∧ n ≤ c ∧ b[c]? = some 58 ∧ Eol b p e ∧
+      b[e]? = some c2 ∧ isWS c2 = false ∧
+      h.name = ⟨o, n - o⟩ ∧ h.type = getHdrType (b.extract o n) ∧ h.state = .fin ∧ h.pnc = false ∧ hb' = hb ∧
+      ((∃ v ve, Lws b (c + 1) v ∧ ValRun b v ve p ∧ h.val = ⟨v, ve - v⟩) ∨ (Lws b (c + 1) p ∧ h.val = {})) := by
+  obtain ⟨H, hh⟩ := hs_line_sound b o hb hfit hg hr
+  rcases H with ⟨n, c, v, ve, p, c2, h1, h2, h3, h4, h5, h6, h7, h8, h9, h10, rfl⟩ |
+    ⟨n, c, p, c2, h1, h2, h3, h4, h5, h6, h8, h9, h10, rfl⟩
+  · exact ⟨n, c, p, c2, h1, h2, h3, h4, h5, h8, h9, h10, rfl, rfl, rfl, rfl, hh, Or.inl ⟨v, ve, h6, h7, rfl⟩⟩
+  · exact ⟨n, c, p, c2, h1, h2, h3, h4, h5, h8, h9, h10, rfl, rfl, rfl, rfl, hh, Or.inr ⟨h6, rfl⟩⟩
+
+/-- **the "empty" verdict**: exactly the empty line that ends a block -/
+theorem hs_line_empty (b : Buf) (o : Nat) (hb : Option PHdrVals) (hfit : b.size ≤ 65535)
+    (hg : hb = none ∨ IsOther (getHdrType (b.extract o (skipTokenDelim b o 58))))
+    {e : Nat} {h : Hdr} {hb' : Option PHdrVals} (hr : parseHdrLine b o {} hb = (e, .empty, h, hb')) :
+    EmptyLine b o e ∧ h = { state := .fin } ∧ hb' = hb := by
+  have := hs_parseHdrLine_cases b o hb hfit hg
+  rw [hr] at this
+  rcases this with ⟨h1, _⟩ | ⟨_, h1, h2, h3⟩ | h1 | h1
+  · cases h1
+  · exact ⟨h1, h2, h3⟩
+  · cases h1
+  · cases h1
+
+/-- **every other verdict is "more bytes" or the error "bad character"** -/
+theorem hs_line_verdicts (b : Buf) (o : Nat) (hb : Option PHdrVals) (hfit : b.size ≤ 65535)
+    (hg : hb = none ∨ IsOther (getHdrType (b.extract o (skipTokenDelim b o 58))))
+    {e : Nat} {er : Err} {h : Hdr} {hb' : Option PHdrVals} (hr : parseHdrLine b o {} hb = (e, er, h, hb')) :
+    er = .ok ∨ er = .empty ∨ er = .moreBytes ∨ er = .badChar := by
+  have := hs_parseHdrLine_cases b o hb hfit hg
+  rw [hr] at this
+  rcases this with ⟨h1, _⟩ | ⟨h1, _⟩ | h1 | h1
+  · exact Or.inl h1
+  · exact Or.inr (Or.inl h1)
+  · exact Or.inr (Or.inr (Or.inl h1))
+  · exact Or.inr (Or.inr (Or.inr h1))
+
+/-- **accepted iff of the grammar** (line level, with `parseHdrLine_spec` for the other direction) -/
+theorem hs_line_ok_iff (b : Buf) (o : Nat) (hb : Option PHdrVals) (hfit : b.size ≤ 65535)
+    (hg : hb = none ∨ IsOther (getHdrType (b.extract o (skipTokenDelim b o 58))))
+    (e : Nat) (h : Hdr) (hb' : Option PHdrVals) :
+    parseHdrLine b o {} hb = (e, .ok, h, hb') ↔ HdrLineAt b o e h ∧ hb' = hb := by
+  constructor
+  · exact hs_line_sound b o hb hfit hg
+  · rintro ⟨H, rfl⟩
+    refine H.parse hb' hfit ?_
+    rcases hg with hg | hg
+    · exact Or.inl hg
+    · exact Or.inr (by rw [(hs_lineAt_type H).1]; exact hg)
+
+theorem hs_line_empty_iff (b : Buf) (o : Nat) (hb : Option PHdrVals) (hfit : b.size ≤ 65535)
+    (hg : hb = none ∨ IsOther (getHdrType (b.extract o (skipTokenDelim b o 58))))
+    (e : Nat) (h : Hdr) (hb' : Option PHdrVals) :
+    parseHdrLine b o {} hb = (e, .empty, h, hb') ↔ EmptyLine b o e ∧ h = { state := .fin } ∧ hb' = hb := by
+  constructor
+  · exact hs_line_empty b o hb hfit hg
+  · rintro ⟨H, rfl, rfl⟩
+    exact (H.parse hb').1
+
+/-- a line of the grammar at `o` is unique: its end and the header it denotes are determined by the text -/
+theorem hs_lineAt_unique {b : Buf} {o e e' : Nat} {h h' : Hdr} (hfit : b.size ≤ 65535)
+    (H : HdrLineAt b o e h) (H' : HdrLineAt b o e' h') : e = e' ∧ h = h' := by
+  have h1 := H.parse none hfit (Or.inl rfl)
+  have h2 := H'.parse none hfit (Or.inl rfl)
+  rw [h1] at h2
+  cases h2
+  exact ⟨rfl, rfl⟩
+
+theorem hs_emptyLine_unique {b : Buf} {o e e' : Nat} (H : EmptyLine b o e) (H' : EmptyLine b o e') : e = e' := by
+  have h1 := (H.parse none).1
+  have h2 := (H'.parse none).1
+  rw [h1] at h2
+  cases h2
+  rfl
+
+/-- a header line and the empty line never start at the same place -/
+theorem hs_line_not_empty {b : Buf} {o e e' : Nat} {h : Hdr} (hfit : b.size ≤ 65535)
+    (H : HdrLineAt b o e h) (H' : EmptyLine b o e') : False := by
+  have h1 := H.parse none hfit (Or.inl rfl)
+  have h2 := (H'.parse none).1
+  rw [h1] at h2
+  cases h2
+
+/-! ### ANY values object: the name and the type of an accepted line -/
+
+/-- the dispatch to the value parsers never touches the type and the name of the header -/
+theorem hs_parseBody_frame (b : Buf) (o : Nat) (h : Hdr) (hb : Option PHdrVals)
+    {n : Nat} {e : Err} {h2 : Hdr} {hb2 : Option PHdrVals}
+    (hr : parseBody b o h hb = (n, e, h2, hb2)) : h2.type = h.type ∧ h2.name = h.name := by
+  unfold parseBody at hr
+  cases hb with
+  | none => simp only [Prod.mk.injEq] at hr; obtain ⟨_, _, rfl, _⟩ := hr; exact ⟨rfl, rfl⟩
+  | some hv =>
+  simp only at hr
+  by_cases h_from_ : (h.type == HdrFrom) = true
+  · simp only [h_from_, ↓reduceIte] at hr
+    by_cases hp : (!hv.from_.parsed) = true
+    · simp only [hp, ↓reduceIte] at hr
+      simp only [Prod.mk.injEq] at hr
+      obtain ⟨_, _, rfl, _⟩ := hr
+      exact ⟨rfl, rfl⟩
+    · simp only [hp, Bool.false_eq_true, ↓reduceIte, Prod.mk.injEq] at hr
+      obtain ⟨_, _, rfl, _⟩ := hr; exact ⟨rfl, rfl⟩
+  simp only [h_from_, Bool.false_eq_true, ↓reduceIte] at hr
+  by_cases h_to : (h.type == HdrTo) = true
+  · simp only [h_to, ↓reduceIte] at hr
+    by_cases hp : (!hv.to.parsed) = true
+    · simp only [hp, ↓reduceIte] at hr
+      simp only [Prod.mk.injEq] at hr
+      obtain ⟨_, _, rfl, _⟩ := hr
+      exact ⟨rfl, rfl⟩
+    · simp only [hp, Bool.false_eq_true, ↓reduceIte, Prod.mk.injEq] at hr
+      obtain ⟨_, _, rfl, _⟩ := hr; exact ⟨rfl, rfl⟩
+  simp only [h_to, Bool.false_eq_true, ↓reduceIte] at hr
+  by_cases h_callid : (h.type == HdrCallID) = true
+  · simp only [h_callid, ↓reduceIte] at hr
+    by_cases hp : (!hv.callid.parsed) = true
+    · simp only [hp, ↓reduceIte] at hr
+      simp only [Prod.mk.injEq] at hr
+      obtain ⟨_, _, rfl, _⟩ := hr
+      exact ⟨rfl, rfl⟩
+    · simp only [hp, Bool.false_eq_true, ↓reduceIte, Prod.mk.injEq] at hr
+      obtain ⟨_, _, rfl, _⟩ := hr; exact ⟨rfl, rfl⟩
+  simp only [h_callid, Bool.false_eq_true, ↓reduceIte] at hr
+  by_cases h_cseq : (h.type == HdrCSeq) = true
+  · simp only [h_cseq, ↓reduceIte] at hr
+    by_cases hp : (!hv.cseq.parsed) = true
+    · simp only [hp, ↓reduceIte] at hr
+      simp only [Prod.mk.injEq] at hr
+      obtain ⟨_, _, rfl, _⟩ := hr
+      exact ⟨rfl, rfl⟩
+    · simp only [hp, Bool.false_eq_true, ↓reduceIte, Prod.mk.injEq] at hr
+      obtain ⟨_, _, rfl, _⟩ := hr; exact ⟨rfl, rfl⟩
+  simp only [h_cseq, Bool.false_eq_true, ↓reduceIte] at hr
+  by_cases h_clen : (h.type == HdrCLen) = true
+  · simp only [h_clen, ↓reduceIte] at hr
+    by_cases hp : (!hv.clen.parsed) = true
+    · simp only [hp, ↓reduceIte] at hr
+      simp only [Prod.mk.injEq] at hr
+      obtain ⟨_, _, rfl, _⟩ := hr
+      exact ⟨rfl, rfl⟩
+    · simp only [hp, Bool.false_eq_true, ↓reduceIte, Prod.mk.injEq] at hr
+      obtain ⟨_, _, rfl, _⟩ := hr; exact ⟨rfl, rfl⟩
+  simp only [h_clen, Bool.false_eq_true, ↓reduceIte] at hr
+  by_cases h_contacts : (h.type == HdrContact) = true
+  · simp only [h_contacts, ↓reduceIte, Prod.mk.injEq] at hr
+    obtain ⟨_, _, rfl, _⟩ := hr
+    exact ⟨rfl, rfl⟩
+  simp only [h_contacts, Bool.false_eq_true, ↓reduceIte] at hr
+  by_cases h_expires : (h.type == HdrExpires) = true
+  · simp only [h_expires, ↓reduceIte] at hr
+    by_cases hp : (!hv.expires.parsed) = true
+    · simp only [hp, ↓reduceIte] at hr
+      simp only [Prod.mk.injEq] at hr
+      obtain ⟨_, _, rfl, _⟩ := hr
+      exact ⟨rfl, rfl⟩
+    · simp only [hp, Bool.false_eq_true, ↓reduceIte, Prod.mk.injEq] at hr
+      obtain ⟨_, _, rfl, _⟩ := hr; exact ⟨rfl, rfl⟩
+  simp only [h_expires, Bool.false_eq_true, ↓reduceIte] at hr
+  by_cases h_pais : (h.type == HdrPAI) = true
+  · simp only [h_pais, ↓reduceIte, Prod.mk.injEq] at hr
+    obtain ⟨_, _, rfl, _⟩ := hr
+    exact ⟨rfl, rfl⟩
+  simp only [h_pais, Bool.false_eq_true, ↓reduceIte] at hr
+  simp only [Prod.mk.injEq] at hr
+  obtain ⟨_, _, rfl, _⟩ := hr; exact ⟨rfl, rfl⟩
+
+/-- the code after the colon, ANY values object: either it classifies the name and hands over to the generic value
+    scanner (no values object, a type without a value parser, or a repeated single-valued header), or — only with a
+    values object and a typed name — it finishes the line with the verdict of the value parser; in both cases the
+    header carries the name as written and the classification of the name -/
+theorem hs_afterColon_all (b : Buf) (o n i : Nat) (hb : Option PHdrVals) (hon : o < n) (hn : n ≤ b.size)
+    (hfit : b.size ≤ 65535) :
+    hlAfterColon b i (hdrAt 0 o n {} .bodyStart) hb =
+      .cont i (hdrAt (getHdrType (b.extract o n)) o n {} .bodyStart, hb) ∨
+    (hb ≠ none ∧ ¬ IsOther (getHdrType (b.extract o n)) ∧ ∃ n' e' h' hb2,
+      hlAfterColon b i (hdrAt 0 o n {} .bodyStart) hb = .done n' e' (h', hb2) ∧
+      h'.name = ⟨o, n - o⟩ ∧ h'.type = getHdrType (b.extract o n) ∧ (e' = .ok → h'.state = .fin) ∧ e' ≠ .empty) := by
+  have hget : PField.get? b (hdrAt 0 o n {} .bodyStart).name = some (b.extract o n) := by
+    have := field_get? b o (n - o) (by omega) hfit
+    show PField.get? b ⟨o, n - o⟩ = _
+    rw [this]; congr 2; omega
+  have hh : ({ hdrAt 0 o n {} .bodyStart with type := getHdrType (b.extract o n) } : Hdr) =
+      hdrAt (getHdrType (b.extract o n)) o n {} .bodyStart := rfl
+  unfold hlAfterColon
+  simp only [hget]
+  rw [hh]
+  rcases hpb : parseBody b i (hdrAt (getHdrType (b.extract o n)) o n {} .bodyStart) hb with ⟨n', e', h2, hb2⟩
+  simp only
+  have hfr := hs_parseBody_frame b i _ hb hpb
+  by_cases hst : h2.state = .bodyStart
+  · obtain ⟨rfl, rfl, rfl, rfl⟩ := parseBody_keep b i _ hb hpb hst
+    left
+    rw [if_neg (by rw [hst]; decide)]
+  · right
+    have hne : (h2.state != HState.bodyStart) = true := by simpa using hst
+    rw [if_pos hne]
+    have hng : ¬ (hb = none ∨ IsOther (getHdrType (b.extract o n))) := by
+      intro hg
+      have := parseBody_generic b i (hdrAt (getHdrType (b.extract o n)) o n {} .bodyStart) hb hg
+      rw [hpb] at this
+      cases this
+      exact hst rfl
+    have hnem : e' ≠ .empty := by
+      have := parseBody_ne_empty b i (hdrAt (getHdrType (b.extract o n)) o n {} .bodyStart) hb
+      rw [hpb] at this
+      exact this
+    refine ⟨fun h => hng (Or.inl h), fun h => hng (Or.inr h), n', e', _, hb2, rfl, ?_, ?_, ?_, hnem⟩
+    · by_cases he : (e' == Err.ok) = true
+      · rw [if_pos he]; exact hfr.2
+      · rw [if_neg he]; exact hfr.2
+    · by_cases he : (e' == Err.ok) = true
+      · rw [if_pos he]; exact hfr.1
+      · rw [if_neg he]; exact hfr.1
+    · intro he
+      subst he
+      rfl
+
+/-- the typed path (values object supplied, name of one of the eight typed kinds): name and colon are as in the
+    grammar, the header carries the name as written and its classification, and is finished when the verdict is OK -/
+def HsTypedOut (b : Buf) (o : Nat) (hb : Option PHdrVals) (er : Err) (h : Hdr) : Prop :=
+  hb ≠ none ∧ ∃ n c, NameRun b o n ∧ o < n ∧ WsRun b n c ∧ n ≤ c ∧ b[c]? = some 58 ∧
+    ¬ IsOther (getHdrType (b.extract o n)) ∧ h.name = ⟨o, n - o⟩ ∧ h.type = getHdrType (b.extract o n) ∧
+    (er = .ok → h.state = .fin) ∧ er ≠ .empty
+
+def HsOutAllR (b : Buf) (o : Nat) (hb : Option PHdrVals) (r : Nat × Err × HLσ) : Prop :=
+  HsOutR b o hb r ∨ HsTypedOut b o hb r.2.1 r.2.2.1
+
+/-- the loop of ParseHdrLine on a new header object, ANY values object: the generic outcomes of `HsLineOut`, or the
+    typed path -/
+theorem hs_line_loop_all (b : Buf) (o : Nat) (hb : Option PHdrVals) (hfit : b.size ≤ 65535) :
+    HsOutAllR b o hb (runLoop hlMachine b o (({} : Hdr), hb)) := by
+  have more : ∀ e st, HsOutAllR b o hb (e, .moreBytes, st) := fun _ _ => Or.inl (Or.inr (Or.inr (Or.inl rfl)))
+  have mb : ∀ e er st, (er = .moreBytes ∨ er = .badChar) → HsOutAllR b o hb (e, er, st) := by
+    intro e er st h
+    rcases h with h | h
+    · exact Or.inl (Or.inr (Or.inr (Or.inl h)))
+    · exact Or.inl (Or.inr (Or.inr (Or.inr h)))
+  -- from the code after the colon on
+  have after : ∀ (n c i0 : Nat) (ci : UInt8) (st0 : HLσ), NameRun b o n → o < n → WsRun b n c → n ≤ c →
+      b[c]? = some 58 → b[i0]? = some ci → i0 ≤ c →
+      hlStep b i0 ci st0 = hlAfterColon b (c + 1) (hdrAt 0 o n {} .bodyStart) hb →
+      HsOutAllR b o hb (runLoop hlMachine b i0 st0) := by
+    intro n c i0 ci st0 hname hon hws hnc hcolon hci hic hstep
+    have hcl := get?_lt hcolon
+    rcases hs_afterColon_all b o n (c + 1) hb hon (by omega) hfit with hc | ⟨hb1, hty, n', e', h', hb2, hd, hn1, hn2, hn3, hn4⟩
+    · rw [runLoop_cont hlMachine hci (by exact hstep.trans hc), if_pos (by omega)]
+      exact Or.inl (hs_after_colon b hb hfit o n c hname hon hws hnc hcolon)
+    · rw [runLoop_done hlMachine hci (by exact hstep.trans hd)]
+      exact Or.inr ⟨hb1, n, c, hname, hon, hws, hnc, hcolon, hty, hn1, hn2, hn3, hn4⟩
+  cases h0 : b[o]? with
+  | none => rw [runLoop_none hlMachine _ h0]; exact more _ _
+  | some c0 =>
+    by_cases h13 : c0 = 13
+    · subst h13
+      cases h1 : b[o + 1]? with
+      | none =>
+        rw [runLoop_done hlMachine h0 (o := o) (e := .moreBytes) (st' := (({} : Hdr), hb))
+          (by show hlStep b o 13 (({} : Hdr), hb) = _; unfold hlStep; simp only [beq_self_eq_true, ↓reduceIte, h1])]
+        exact more _ _
+      | some c1 =>
+        by_cases h10 : c1 = 10
+        · subst h10
+          rw [runLoop_done hlMachine h0 (o := o + 2) (e := .empty) (st' := ({ state := .fin }, hb))
+            (by show hlStep b o 13 (({} : Hdr), hb) = _; unfold hlStep; simp only [beq_self_eq_true, ↓reduceIte, h1])]
+          exact Or.inl (Or.inr (Or.inl ⟨rfl, EmptyLine.crlf o h0 h1, rfl, rfl⟩))
+        · have e10 : (c1 == 10) = false := by simpa using h10
+          rw [runLoop_done hlMachine h0 (o := o + 1) (e := .empty) (st' := ({ state := .fin }, hb))
+            (by show hlStep b o 13 (({} : Hdr), hb) = _; unfold hlStep
+                simp only [beq_self_eq_true, ↓reduceIte, h1, e10, Bool.false_eq_true])]
+          exact Or.inl (Or.inr (Or.inl ⟨rfl, EmptyLine.cr o c1 h0 h1 h10, rfl, rfl⟩))
+    · have e13 : (c0 == 13) = false := by simpa using h13
+      by_cases h10 : c0 = 10
+      · subst h10
+        rw [runLoop_done hlMachine h0 (o := o + 1) (e := .empty) (st' := ({ state := .fin }, hb))
+          (by show hlStep b o 10 (({} : Hdr), hb) = _; unfold hlStep
+              simp only [e13, Bool.false_eq_true, ↓reduceIte, beq_self_eq_true])]
+        exact Or.inl (Or.inr (Or.inl ⟨rfl, EmptyLine.lf o h0, rfl, rfl⟩))
+      · have e10 : (c0 == 10) = false := by simpa using h10
+        have hstep : hlStep b o c0 (({} : Hdr), hb) = hlName b o { state := .name, name := PField.set o o } hb := by
+          unfold hlStep; simp only [e13, e10, Bool.false_eq_true, ↓reduceIte]
+        rcases hs_hlName_all b o hb hfit with ⟨e, er, st, hd, her⟩ | ⟨cn, hon, hcn, hw, hc⟩ | ⟨hon, hcn, hc⟩
+        · rw [runLoop_done hlMachine h0 (by exact hstep.trans hd)]; exact mb _ _ _ her
+        · -- white space after the name
+          have hnl := get?_lt hcn
+          rw [runLoop_cont hlMachine h0 (by exact hstep.trans hc), if_pos (by omega)]
+          cases hy : b[skipTokenDelim b o 58 + 1]? with
+          | none => rw [runLoop_none hlMachine _ hy]; exact more _ _
+          | some y =>
+            rcases hs_nameEnd_all b o (skipTokenDelim b o 58) (skipTokenDelim b o 58 + 1) y hb with
+              ⟨e, er, st, hd, her⟩ | ⟨hcol, hc2⟩
+            · rw [runLoop_done hlMachine hy (by exact hd)]; exact mb _ _ _ her
+            · have hge := skipWS_ge b (skipTokenDelim b o 58 + 1)
+              refine after _ _ _ y _ (hs_skipTokenDelim_run b o) hon ?_ (by omega) hcol hy (by omega) hc2
+              intro k h1 h2
+              by_cases hk : k = skipTokenDelim b o 58
+              · subst hk; exact ⟨cn, hcn, hw⟩
+              · exact hs_skipWS_run b (skipTokenDelim b o 58 + 1) k (by omega) h2
+        · -- the colon right after the name
+          exact after _ _ o c0 _ (hs_skipTokenDelim_run b o) hon (fun k h1 h2 => by omega) (Nat.le_refl _) hcn h0
+            (by omega) (hstep.trans hc)
+
+/-- **name and type of ANY accepted line, with or without a values object, typed or not**: if ParseHdrLine says OK
+    for a new header object, the text at `o` starts with a non-empty name `[o, n)` (no SP / HT / CR / LF / colon in
+    it), spaces / tabs, and the colon; the reported name is `[o, n)`, the reported type is the classification of
+    exactly that text, and the header is finished -/
+theorem hs_line_name_type_sound (b : Buf) (o : Nat) (hb : Option PHdrVals) (hfit : b.size ≤ 65535)
+    {e : Nat} {h : Hdr} {hb' : Option PHdrVals} (hr : parseHdrLine b o {} hb = (e, .ok, h, hb')) :
+    ∃ n c, NameRun b o n ∧ o < n ∧ WsRun b n c ∧ n ≤ c ∧ b[c]? = some 58 ∧ h.name = ⟨o, n - o⟩ ∧
+      h.type = getHdrType (b.extract o n) ∧ h.state = .fin := by
+  have hall := hs_line_loop_all b o hb hfit
+  have hrr : runLoop hlMachine b o (({} : Hdr), hb) = (e, .ok, (h, hb')) := by
+    unfold parseHdrLine at hr
+    rcases hq : runLoop hlMachine b o (({} : Hdr), hb) with ⟨a1, a2, a3, a4⟩
+    rw [hq] at hr
+    cases hr
+    rfl
+  rw [hrr] at hall
+  rcases hall with (⟨_, H, _⟩ | ⟨h1, _⟩ | h1 | h1) | ⟨_, n, c, q1, q2, q3, q4, q5, _, q7, q8, q9, _⟩
+  · rcases H with ⟨n, c, v, ve, p, c2, h1, h2, h3, h4, h5, _, _, _, _, _, rfl⟩ |
+      ⟨n, c, p, c2, h1, h2, h3, h4, h5, _, _, _, _, rfl⟩
+    · exact ⟨n, c, h1, h2, h3, h4, h5, rfl, rfl, rfl⟩
+    · exact ⟨n, c, h1, h2, h3, h4, h5, rfl, rfl, rfl⟩
+  · cases h1
+  · cases h1
+  · cases h1
+  · exact ⟨n, c, q1, q2, q3, q4, q5, q7, q8, q9 rfl⟩
+
+/-- **soundness phrased on the REPORTED type**: with a values object, an accepted line whose reported type is not one
+    of the eight typed kinds is a line of the grammar, the reported header is the one it denotes, and the values object
+    is untouched -/
+theorem hs_line_sound_reported (b : Buf) (o : Nat) (hb : Option PHdrVals) (hfit : b.size ≤ 65535)
+    {e : Nat} {h : Hdr} {hb' : Option PHdrVals} (hr : parseHdrLine b o {} hb = (e, .ok, h, hb'))
+    (ht : IsOther h.type) : HdrLineAt b o e h ∧ hb' = hb := by
+  have hall := hs_line_loop_all b o hb hfit
+  have hrr : runLoop hlMachine b o (({} : Hdr), hb) = (e, .ok, (h, hb')) := by
+    unfold parseHdrLine at hr
+    rcases hq : runLoop hlMachine b o (({} : Hdr), hb) with ⟨a1, a2, a3, a4⟩
+    rw [hq] at hr
+    cases hr
+    rfl
+  rw [hrr] at hall
+  rcases hall with (⟨_, H, h2⟩ | ⟨h1, _⟩ | h1 | h1) | ⟨_, n, c, _, _, _, _, _, q6, _, q8, _, _⟩
+  · exact ⟨H, h2⟩
+  · cases h1
+  · cases h1
+  · cases h1
+  · exact absurd (by rw [← q8]; exact ht) q6
+
+/-! ### ANY values object: one header per logical line, names and types -/
+
+/-- a reported header whose name and type are right: at `o` a non-empty name `[o, n)`, spaces / tabs, the colon; the
+    header is finished, carries that name and the classification of exactly that text (the value part is the business
+    of the value parser when the line is typed) -/
+def HsNameAt (b : Buf) (o : Nat) (h : Hdr) : Prop :=
+  ∃ n c, NameRun b o n ∧ o < n ∧ WsRun b n c ∧ n ≤ c ∧ b[c]? = some 58 ∧ h.name = ⟨o, n - o⟩ ∧
+    h.type = getHdrType (b.extract o n) ∧ h.state = .fin
+
+/-- accepted lines one after the other (each starting where the previous one ended), then the empty line -/
+inductive HsChain (b : Buf) : Nat → List Hdr → Nat → Prop
+  | nil (o e : Nat) : EmptyLine b o e → HsChain b o [] e
+  | cons (o e1 e : Nat) (h : Hdr) (hs : List Hdr) : HsNameAt b o h → o < e1 → HsChain b e1 hs e → HsChain b o (h :: hs) e
+
+/-- the "empty" verdict of ParseHdrLine, ANY values object: exactly the empty line, header finished, values object
+    untouched -/
+theorem hs_line_empty_all (b : Buf) (o : Nat) (hb : Option PHdrVals) (hfit : b.size ≤ 65535)
+    {e : Nat} {h : Hdr} {hb' : Option PHdrVals} (hr : parseHdrLine b o {} hb = (e, .empty, h, hb')) :
+    EmptyLine b o e ∧ h = { state := .fin } ∧ hb' = hb := by
+  have hall := hs_line_loop_all b o hb hfit
+  have hrr : runLoop hlMachine b o (({} : Hdr), hb) = (e, .empty, (h, hb')) := by
+    unfold parseHdrLine at hr
+    rcases hq : runLoop hlMachine b o (({} : Hdr), hb) with ⟨a1, a2, a3, a4⟩
+    rw [hq] at hr
+    cases hr
+    rfl
+  rw [hrr] at hall
+  rcases hall with (⟨h1, _⟩ | ⟨_, h1, h2, h3⟩ | h1 | h1) | ⟨_, n, c, _, _, _, _, _, _, _, _, _, q⟩
+  · cases h1
+  · exact ⟨h1, h2, h3⟩
+  · cases h1
+  · cases h1
+  · exact absurd rfl q
+
+/-- **ParseHeaders, ANY values object** (list object in the state of a new / reset one): if the verdict is OK (or
+    "empty"), the accepted text is a chain of lines — each reported header has the name as written and the
+    classification of that name — ended by the empty line, and the list object is what accepting exactly these
+    headers, in order, produces: one header per logical line, none invented, none dropped -/
+theorem hs_block_names_all (b : Buf) (hfit : b.size ≤ 65535) :
+    ∀ (k o : Nat) (hl : HdrLst) (hb : Option PHdrVals), b.size - o = k → HlsClean hl → hl.cur = {} →
+      ∀ {e : Nat} {er : Err} {hl' : HdrLst} {hb' : Option PHdrVals},
+        parseHeaders b o hl hb = (e, er, hl', hb') → (er = .ok ∨ er = .empty) →
+        ∃ hs, HsChain b o hs e ∧ hl' = (hl.acceptAll hs).setCur { state := .fin } ∧
+          er = (if (hl.acceptAll hs).n > 0 then Err.ok else Err.empty) := by
+  intro k
+  induction k using Nat.strongRecOn with
+  | _ k ih =>
+    intro o hl hb hk hc hcur e er hl' hb' hr her
+    rw [parseHeaders] at hr
+    by_cases hlt : o < b.size
+    · rw [if_pos hlt, hcur] at hr
+      rcases hp : parseHdrLine b o {} hb with ⟨n, e1, h, hb1⟩
+      rw [hp] at hr
+      cases e1 <;> simp only at hr
+      case ok =>
+        have hname := hs_line_name_type_sound b o hb hfit hp
+        by_cases hgt : o < n
+        · rw [if_pos hgt] at hr
+          have hcl := accept_clean hl h hc
+          obtain ⟨hs, H, h1, h2⟩ := ih (b.size - n) (by omega) n _ hb1 rfl hcl.1 hcl.2 hr her
+          exact ⟨h :: hs, HsChain.cons o n e h hs hname hgt H, h1, h2⟩
+        · rw [if_neg hgt] at hr
+          cases hr
+          rcases her with h | h <;> cases h
+      case empty =>
+        obtain ⟨hem, rfl, _⟩ := hs_line_empty_all b o hb hfit hp
+        refine ⟨[], ?_, ?_, ?_⟩
+        · by_cases hn : hl.n > 0
+          · rw [if_pos hn] at hr; cases hr; exact HsChain.nil o _ hem
+          · rw [if_neg hn] at hr; cases hr; exact HsChain.nil o _ hem
+        · by_cases hn : hl.n > 0
+          · rw [if_pos hn] at hr; cases hr; rfl
+          · rw [if_neg hn] at hr; cases hr; rfl
+        · show er = if hl.n > 0 then Err.ok else Err.empty
+          by_cases hn : hl.n > 0
+          · rw [if_pos hn] at hr; cases hr; rw [if_pos hn]
+          · rw [if_neg hn] at hr; cases hr; rw [if_neg hn]
+      all_goals (cases hr; rcases her with h | h <;> cases h)
+    · rw [if_neg hlt] at hr
+      cases hr
+      rcases her with h | h <;> cases h
+
+theorem HsChain.length_pos {b : Buf} {o e : Nat} {hs : List Hdr} (H : HsChain b o hs e) : o < e := by
+  induction H with
+  | nil o e he =>
+    cases he <;> omega
+  | cons o e1 e h hs _ hlt _ ih => omega
+
+/-! ### the header block -/
+
+/-- the byte before the end of a line end is a CR or LF -/
+theorem hs_eol_last {b : Buf} {p e : Nat} (h : Eol b p e) : p < e ∧ ∃ c, b[e - 1]? = some c ∧ isCRLFch c = true := by
+  cases h with
+  | crlf h0 h1 => exact ⟨by omega, 10, h1, by decide⟩
+  | cr c h0 h1 hc => exact ⟨by omega, 13, h0, by decide⟩
+  | lf c h0 h1 => exact ⟨by omega, 10, h0, by decide⟩
+
+theorem hs_lineAt_last {b : Buf} {o e : Nat} {h : Hdr} (H : HdrLineAt b o e h) :
+    o < e ∧ ∃ c, b[e - 1]? = some c ∧ isCRLFch c = true := by
+  refine ⟨H.gt.1, ?_⟩
+  rcases H with ⟨n, c, v, ve, p, c2, _, _, _, _, _, _, _, h8, _, _, _⟩ | ⟨n, c, p, c2, _, _, _, _, _, _, h8, _, _, _⟩
+  · exact (hs_eol_last h8).2
+  · exact (hs_eol_last h8).2
+
+/-- `o'` is where a line of the text from `o` on can start: `o` itself, or any later position just after a CR / LF -/
+def HsLineStart (b : Buf) (o o' : Nat) : Prop :=
+  o' = o ∨ (o < o' ∧ ∃ c, b[o' - 1]? = some c ∧ isCRLFch c = true)
+
+/-- the generic treatment for a block: no values object, or no line of the text from `o` on starts with a name (text
+    up to the first SP / HT / CR / LF / colon) of one of the eight header types with a dedicated value parser -/
+def HsGeneric (b : Buf) (o : Nat) (hb : Option PHdrVals) : Prop :=
+  hb = none ∨ ∀ o', HsLineStart b o o' → IsOther (getHdrType (b.extract o' (skipTokenDelim b o' 58)))
+
+theorem HsGeneric.here {b : Buf} {o : Nat} {hb : Option PHdrVals} (h : HsGeneric b o hb) :
+    hb = none ∨ IsOther (getHdrType (b.extract o (skipTokenDelim b o 58))) := by
+  rcases h with h | h
+  · exact Or.inl h
+  · exact Or.inr (h o (Or.inl rfl))
+
+theorem HsGeneric.next {b : Buf} {o e : Nat} {hb : Option PHdrVals} {h : Hdr} (hg : HsGeneric b o hb)
+    (H : HdrLineAt b o e h) : HsGeneric b e hb := by
+  rcases hg with hg | hg
+  · exact Or.inl hg
+  · refine Or.inr (fun o' ho' => hg o' ?_)
+    obtain ⟨hlt, hc⟩ := hs_lineAt_last H
+    rcases ho' with rfl | ⟨h1, h2⟩
+    · exact Or.inr ⟨hlt, hc⟩
+    · exact Or.inr ⟨by omega, h2⟩
+
+/-- **ParseHeaders, every outcome** (list object in the state of a new / reset one, generic treatment): either the
+    text from `o` is a block of the grammar (then `parseHeaders_block` gives the complete result), or the verdict is
+    "more bytes", or it is the error "bad character" -/
+theorem hs_block_cases (b : Buf) (hb : Option PHdrVals) (hfit : b.size ≤ 65535) :
+    ∀ (k o : Nat) (hl : HdrLst), b.size - o = k → HlsClean hl → hl.cur = {} → HsGeneric b o hb →
+      (∃ hs e, HdrBlock b o hs e ∧ (hb = none ∨ ∀ h ∈ hs, IsOther h.type)) ∨
+      (∃ e hl' hb', parseHeaders b o hl hb = (e, .moreBytes, hl', hb')) ∨
+      (∃ e hl' hb', parseHeaders b o hl hb = (e, .badChar, hl', hb')) := by
+  intro k
+  induction k using Nat.strongRecOn with
+  | _ k ih =>
+    intro o hl hk hc hcur hg
+    rw [parseHeaders]
+    by_cases hlt : o < b.size
+    · rw [if_pos hlt, hcur]
+      have hcases := hs_parseHdrLine_cases b o hb hfit hg.here
+      rcases hp : parseHdrLine b o {} hb with ⟨n, e1, h, hb1⟩
+      rw [hp] at hcases
+      rcases hcases with ⟨h1, hline, h2⟩ | ⟨h1, hempty, _, _⟩ | h1 | h1
+      · -- a header line: on to the next one
+        have h1' : e1 = .ok := h1
+        have h2' : hb1 = hb := h2
+        subst h1' h2'
+        have hgt := hline.gt
+        simp only
+        rw [if_pos hgt.1]
+        have hcl := accept_clean hl h hc
+        rcases ih (b.size - n) (by omega) n _ rfl hcl.1 hcl.2 (hg.next hline) with
+          ⟨hs, e, H, hgen⟩ | hm | hbad
+        · refine Or.inl ⟨h :: hs, e, HdrBlock.cons o n e h hs hline H, ?_⟩
+          rcases hgen with hgen | hgen
+          · exact Or.inl hgen
+          · rcases hg.here with hh | hh
+            · exact Or.inl hh
+            · refine Or.inr (fun x hx => ?_)
+              rcases List.mem_cons.mp hx with rfl | hx
+              · rw [(hs_lineAt_type hline).1]; exact hh
+              · exact hgen x hx
+        · exact Or.inr (Or.inl hm)
+        · exact Or.inr (Or.inr hbad)
+      · -- the empty line: end of the block
+        exact Or.inl ⟨[], n, HdrBlock.nil o n hempty, Or.inr (fun x hx => by cases hx)⟩
+      · have h1' : e1 = .moreBytes := h1
+        subst h1'
+        exact Or.inr (Or.inl ⟨_, _, _, rfl⟩)
+      · have h1' : e1 = .badChar := h1
+        subst h1'
+        exact Or.inr (Or.inr ⟨_, _, _, rfl⟩)
+    · rw [if_neg hlt]
+      exact Or.inr (Or.inl ⟨_, _, _, rfl⟩)
+
+/-- **(2) soundness of an accepted block**: if ParseHeaders ends with OK (or "empty": no header at all), the text
+    `[o, e)` is a block of the grammar — header lines one after the other, then the empty line — and the list object
+    is exactly what accepting the headers denoted by those lines, in order, produces -/
+theorem hs_block_sound (b : Buf) (o : Nat) (hl : HdrLst) (hb : Option PHdrVals) (hfit : b.size ≤ 65535)
+    (hc : HlsClean hl) (hcur : hl.cur = {}) (hg : HsGeneric b o hb)
+    {e : Nat} {er : Err} {hl' : HdrLst} {hb' : Option PHdrVals}
+    (hr : parseHeaders b o hl hb = (e, er, hl', hb')) (her : er = .ok ∨ er = .empty) :
+    ∃ hs, HdrBlock b o hs e ∧ hl' = (hl.acceptAll hs).setCur { state := .fin } ∧ hb' = hb ∧
+      er = (if (hl.acceptAll hs).n > 0 then Err.ok else Err.empty) := by
+  rcases hs_block_cases b hb hfit (b.size - o) o hl rfl hc hcur hg with
+    ⟨hs, e0, H, hgen⟩ | ⟨e0, l0, b0, hm⟩ | ⟨e0, l0, b0, hm⟩
+  · have := parseHeaders_block b hb hfit H hl hc hcur hgen
+    rw [hr] at this
+    cases this
+    exact ⟨hs, H, rfl, rfl, rfl⟩
+  · rw [hr] at hm; cases hm; rcases her with h | h <;> cases h
+  · rw [hr] at hm; cases hm; rcases her with h | h <;> cases h
+
+/-- the verdicts of ParseHeaders (generic treatment): OK, "empty", "more bytes", or the error "bad character" -/
+theorem hs_block_verdicts (b : Buf) (o : Nat) (hl : HdrLst) (hb : Option PHdrVals) (hfit : b.size ≤ 65535)
+    (hc : HlsClean hl) (hcur : hl.cur = {}) (hg : HsGeneric b o hb)
+    {e : Nat} {er : Err} {hl' : HdrLst} {hb' : Option PHdrVals}
+    (hr : parseHeaders b o hl hb = (e, er, hl', hb')) :
+    er = .ok ∨ er = .empty ∨ er = .moreBytes ∨ er = .badChar := by
+  rcases hs_block_cases b hb hfit (b.size - o) o hl rfl hc hcur hg with
+    ⟨hs, e0, H, hgen⟩ | ⟨e0, l0, b0, hm⟩ | ⟨e0, l0, b0, hm⟩
+  · have := parseHeaders_block b hb hfit H hl hc hcur hgen
+    rw [hr] at this
+    cases this
+    by_cases hn : (hl.acceptAll hs).n > 0
+    · rw [if_pos hn]; exact Or.inl rfl
+    · rw [if_neg hn]; exact Or.inr (Or.inl rfl)
+  · rw [hr] at hm; cases hm; exact Or.inr (Or.inr (Or.inl rfl))
+  · rw [hr] at hm; cases hm; exact Or.inr (Or.inr (Or.inr rfl))
+
+/-- a new list object of capacity `k` (what `new_list_ok` of C07 says, repeated here for this file) -/
+def hsNew (k : Nat) : HdrLst := { hdrs := Array.replicate k {} }
+
+theorem hsNew_ok (k : Nat) : HlsClean (hsNew k) ∧ (hsNew k).cur = {} := by
+  have hrep : ∀ j, j < (Array.replicate k ({} : Hdr)).size → (Array.replicate k ({} : Hdr))[j]! = {} := by
+    intro j hj; simp at hj; simp [hj]
+  refine ⟨⟨fun j _ hj => hrep j hj, fun _ => rfl⟩, ?_⟩
+  unfold HdrLst.cur hsNew
+  split
+  · rename_i hin; exact hrep _ hin
+  · rfl
+
+theorem hs_new_count (k : Nat) (hs : List Hdr) : ((hsNew k).acceptAll hs).n = hs.length := by
+  rw [acceptAll_n]; show 0 + hs.length = hs.length; omega
+
+/-- in a block none of whose lines starts with one of the eight typed names, every header is of a generic type -/
+theorem hs_block_generic {b : Buf} {o e : Nat} {hs : List Hdr} (H : HdrBlock b o hs e) :
+    (∀ o', HsLineStart b o o' → IsOther (getHdrType (b.extract o' (skipTokenDelim b o' 58)))) →
+      ∀ h ∈ hs, IsOther h.type := by
+  induction H with
+  | nil o e _ => intro _ h hh; cases hh
+  | cons o e1 e h hs hline _ ih =>
+    intro hg x hx
+    rcases List.mem_cons.mp hx with rfl | hx
+    · rw [(hs_lineAt_type hline).1]; exact hg o (Or.inl rfl)
+    · rcases HsGeneric.next (hb := some {}) (Or.inr hg) hline with hn | hn
+      · cases hn
+      · exact ih hn x hx
+
+theorem HsGeneric.block {b : Buf} {o e : Nat} {hb : Option PHdrVals} {hs : List Hdr} (hg : HsGeneric b o hb)
+    (H : HdrBlock b o hs e) : hb = none ∨ ∀ h ∈ hs, IsOther h.type := by
+  rcases hg with hg | hg
+  · exact Or.inl hg
+  · exact Or.inr (hs_block_generic H hg)
+
+/-- **(3) ParseHeaders accepts iff the text is a block of the grammar** (new list object of any capacity, generic
+    treatment): the result is OK at `e` with list object `hl'` iff `[o, e)` is a block with at least one header line
+    and `hl'` is the list object those headers produce. An ill-formed block is never accepted, a well-formed one never
+    rejected, and what is reported is determined by the grammar. -/
+theorem hs_block_ok_iff (b : Buf) (o k : Nat) (hb : Option PHdrVals) (hfit : b.size ≤ 65535) (hg : HsGeneric b o hb)
+    (e : Nat) (hl' : HdrLst) (hb' : Option PHdrVals) :
+    parseHeaders b o (hsNew k) hb = (e, .ok, hl', hb') ↔
+      ∃ hs, hs ≠ [] ∧ HdrBlock b o hs e ∧ hl' = ((hsNew k).acceptAll hs).setCur { state := .fin } ∧ hb' = hb := by
+  have hnew := hsNew_ok k
+  constructor
+  · intro hr
+    obtain ⟨hs, H, h1, h2, h3⟩ := hs_block_sound b o (hsNew k) hb hfit hnew.1 hnew.2 hg hr (Or.inl rfl)
+    refine ⟨hs, ?_, H, h1, h2⟩
+    intro hnil
+    subst hnil
+    have : ((hsNew k).acceptAll []).n = 0 := hs_new_count k []
+    rw [this] at h3
+    simp at h3
+  · rintro ⟨hs, hne, H, rfl, rfl⟩
+    have := parseHeaders_block b hb' hfit H (hsNew k) hnew.1 hnew.2 (hg.block H)
+    rw [this, hs_new_count]
+    have : hs.length > 0 := by
+      cases hs with
+      | nil => exact absurd rfl hne
+      | cons _ _ => simp
+    rw [if_pos this]
+
+/-- the same without the list object: ParseHeaders says OK at `e` iff `[o, e)` is a non-empty block of the grammar -/
+theorem hs_block_accepts_iff (b : Buf) (o k : Nat) (hb : Option PHdrVals) (hfit : b.size ≤ 65535)
+    (hg : HsGeneric b o hb) (e : Nat) :
+    (∃ hl' hb', parseHeaders b o (hsNew k) hb = (e, .ok, hl', hb')) ↔ ∃ hs, hs ≠ [] ∧ HdrBlock b o hs e := by
+  constructor
+  · rintro ⟨hl', hb', hr⟩
+    obtain ⟨hs, h1, h2, _⟩ := (hs_block_ok_iff b o k hb hfit hg e hl' hb').mp hr
+    exact ⟨hs, h1, h2⟩
+  · rintro ⟨hs, h1, h2⟩
+    exact ⟨_, _, (hs_block_ok_iff b o k hb hfit hg e _ _).mpr ⟨hs, h1, h2, rfl, rfl⟩⟩
+
+/-- "empty" (no header at all): exactly when the text at `o` is the empty line -/
+theorem hs_block_empty_iff (b : Buf) (o k : Nat) (hb : Option PHdrVals) (hfit : b.size ≤ 65535)
+    (hg : HsGeneric b o hb) (e : Nat) :
+    (∃ hl' hb', parseHeaders b o (hsNew k) hb = (e, .empty, hl', hb')) ↔ EmptyLine b o e := by
+  have hnew := hsNew_ok k
+  constructor
+  · rintro ⟨hl', hb', hr⟩
+    obtain ⟨hs, H, _, _, h3⟩ := hs_block_sound b o (hsNew k) hb hfit hnew.1 hnew.2 hg hr (Or.inr rfl)
+    rw [hs_new_count] at h3
+    cases H with
+    | nil _ _ he => exact he
+    | cons _ e1 _ h hs _ _ => simp at h3
+  · intro he
+    have := parseHeaders_block b hb hfit (HdrBlock.nil o e he) (hsNew k) hnew.1 hnew.2 (hg.block (HdrBlock.nil o e he))
+    rw [this, hs_new_count]
+    exact ⟨_, _, rfl⟩
+
+/-- a block of the grammar at `o` is unique: its end and the headers it denotes are determined by the text -/
+theorem hs_block_unique {b : Buf} (hfit : b.size ≤ 65535) {o e : Nat} {hs : List Hdr} (H : HdrBlock b o hs e) :
+    ∀ {e' : Nat} {hs' : List Hdr}, HdrBlock b o hs' e' → hs = hs' ∧ e = e' := by
+  induction H with
+  | nil o e he =>
+    intro e' hs' H'
+    cases H' with
+    | nil _ _ he' => exact ⟨rfl, hs_emptyLine_unique he he'⟩
+    | cons _ e1 _ h hs hline _ => exact (hs_line_not_empty hfit hline he).elim
+  | cons o e1 e h hs hline _ ih =>
+    intro e' hs' H'
+    cases H' with
+    | nil _ _ he' => exact (hs_line_not_empty hfit hline he').elim
+    | cons _ e1' _ h' hs' hline' H2 =>
+      obtain ⟨rfl, rfl⟩ := hs_lineAt_unique hfit hline hline'
+      obtain ⟨rfl, rfl⟩ := ih H2
+      exact ⟨rfl, rfl⟩
+
+/-- what the list object of a new list (capacity `k`) records after accepting the headers `hs`: the count is their
+    number (also beyond the capacity), the stored headers are the first `k` of them in order, a type flag is set iff a
+    header of that type occurs, and the first-of-type table holds the first header of each known type -/
+theorem hs_new_report (k : Nat) (hs : List Hdr) :
+    (((hsNew k).acceptAll hs).setCur { state := .fin }).n = hs.length ∧
+    (((hsNew k).acceptAll hs).setCur { state := .fin }).hdrs.size = k ∧
+    (∀ j (hj : j < hs.length), j < k → (((hsNew k).acceptAll hs).setCur { state := .fin }).hdrs[j]! = hs[j]) ∧
+    (∀ t, t < 16 →
+      (((hsNew k).acceptAll hs).setCur { state := .fin }).pflags.testBit t = hs.any (fun h => h.type == t)) ∧
+    (∀ j, j < 13 → (((hsNew k).acceptAll hs).setCur { state := .fin }).h[j]! =
+      (match hs.find? (fun h => h.type == j + 1) with | some h => h | none => {})) := by
+  have hsz : (hsNew k).hdrs.size = k := by simp [hsNew]
+  refine ⟨?_, ?_, ?_, ?_, ?_⟩
+  · rw [hlSetCur_n, hs_new_count]
+  · rw [hlSetCur_size, acceptAll_size, hsz]
+  · intro j hj hjk
+    have h0 : (hsNew k).n = 0 := rfl
+    have := acceptAll_stored (hsNew k) hs j hj (by rw [h0, hsz]; omega)
+    rw [h0, Nat.zero_add] at this
+    rw [hlSetCur_ne _ _ _ (by rw [hs_new_count]; omega)]
+    exact this
+  · intro t ht
+    rw [(hlSetCur_scalars _ _).1, acceptAll_pflags (hsNew k) hs t ht (by show (0 : Nat) < 65536; decide)]
+    have : (hsNew k).pflags.testBit t = false := by show (0 : Nat).testBit t = false; simp
+    rw [this, Bool.false_or]
+  · intro j hj
+    rw [(hlSetCur_scalars _ _).2]
+    have h13 : (hsNew k).h.size = 13 := by simp [hsNew]
+    have hget : (hsNew k).h[j]! = {} := by
+      show (Array.replicate 13 ({} : Hdr))[j]! = {}
+      simp [hj]
+    have := (acceptAll_first (hsNew k) hs j (by rw [h13]; exact hj) (by rw [hget]; rfl)).1
+    rw [this, hget]
+    cases hs.find? (fun h => h.type == j + 1) <;> rfl
+
+/-- **what an accepted block reports** (new list object of capacity `k`, generic treatment): the headers of the block
+    of the grammar, counted / stored / flagged / indexed as `hs_new_report` says -/
+theorem hs_block_report (b : Buf) (o k : Nat) (hb : Option PHdrVals) (hfit : b.size ≤ 65535) (hg : HsGeneric b o hb)
+    {e : Nat} {hl' : HdrLst} {hb' : Option PHdrVals} (hr : parseHeaders b o (hsNew k) hb = (e, .ok, hl', hb')) :
+    ∃ hs, hs ≠ [] ∧ HdrBlock b o hs e ∧ hb' = hb ∧ hl'.n = hs.length ∧ hl'.hdrs.size = k ∧
+      (∀ j (hj : j < hs.length), j < k → hl'.hdrs[j]! = hs[j]) ∧
+      (∀ t, t < 16 → hl'.pflags.testBit t = hs.any (fun h => h.type == t)) ∧
+      (∀ j, j < 13 → hl'.h[j]! = (match hs.find? (fun h => h.type == j + 1) with | some h => h | none => {})) := by
+  obtain ⟨hs, hne, H, rfl, rfl⟩ := (hs_block_ok_iff b o k hb hfit hg e hl' hb').mp hr
+  obtain ⟨r1, r2, r3, r4, r5⟩ := hs_new_report k hs
+  exact ⟨hs, hne, H, rfl, r1, r2, r3, r4, r5⟩
+
+/-- **what ANY accepted block reports** (new list object of capacity `k`, with or without a values object, typed
+    lines included): a chain of lines whose reported names and types are right (`HsChain`), counted / stored / flagged
+    / indexed as `hs_new_report` says -/
+theorem hs_block_all_report (b : Buf) (o k : Nat) (hb : Option PHdrVals) (hfit : b.size ≤ 65535)
+    {e : Nat} {hl' : HdrLst} {hb' : Option PHdrVals} (hr : parseHeaders b o (hsNew k) hb = (e, .ok, hl', hb')) :
+    ∃ hs, hs ≠ [] ∧ HsChain b o hs e ∧ hl'.n = hs.length ∧ hl'.hdrs.size = k ∧
+      (∀ j (hj : j < hs.length), j < k → hl'.hdrs[j]! = hs[j]) ∧
+      (∀ t, t < 16 → hl'.pflags.testBit t = hs.any (fun h => h.type == t)) ∧
+      (∀ j, j < 13 → hl'.h[j]! = (match hs.find? (fun h => h.type == j + 1) with | some h => h | none => {})) := by
+  have hnew := hsNew_ok k
+  obtain ⟨hs, H, rfl, h3⟩ := hs_block_names_all b hfit (b.size - o) o (hsNew k) hb rfl hnew.1 hnew.2 hr (Or.inl rfl)
+  obtain ⟨r1, r2, r3, r4, r5⟩ := hs_new_report k hs
+  refine ⟨hs, ?_, H, r1, r2, r3, r4, r5⟩
+  intro hnil
+  subst hnil
+  have : ((hsNew k).acceptAll []).n = 0 := hs_new_count k []
+  rw [this] at h3
+  simp at h3
+
+/-! ### resumed calls (one suspension; through the L2 theorems of C02) -/
+
+/-- a line accepted by a RESUMED call — the first call on the prefix `b` asked for more bytes, the second call
+    continues at the returned offset with the returned objects on the longer buffer — is a line of the grammar in
+    the longer buffer, starting at the ORIGINAL offset, and the header reported is the one it denotes -/
+theorem hs_line_resumed_sound (b s : Buf) (o : Nat) (ho : o ≤ b.size) (hfit : (b ++ s).size ≤ 65535)
+    {o1 e : Nat} {h1 h : Hdr} {hb1 hb' : Option PHdrVals}
+    (hr1 : parseHdrLine b o {} none = (o1, .moreBytes, h1, hb1))
+    (hr2 : parseHdrLine (b ++ s) o1 h1 hb1 = (e, .ok, h, hb')) : HdrLineAt (b ++ s) o e h ∧ hb' = none := by
+  obtain ⟨hrr, _⟩ := parseHdrLine_resume b s o {} none ⟨ho, hdrOK_new b, trivial⟩ trivial hr1
+  rw [hr2] at hrr
+  rcases hf : parseHdrLine (b ++ s) o {} none with ⟨e2, er2, h2, hb2⟩
+  rw [hf] at hrr
+  obtain ⟨q1, q2, q3, _⟩ := hrr
+  simp only at q1 q2 q3
+  subst q1
+  subst q2
+  have := q3 (Or.inl rfl)
+  cases this
+  exact hs_line_sound (b ++ s) o none hfit (Or.inl rfl) hf
+
+/-- the same for ParseHeaders: a block accepted by a resumed call is a block of the grammar in the longer buffer
+    from the original offset, and the list object is the one its headers produce -/
+theorem hs_block_resumed_sound (b s : Buf) (o k : Nat) (ho : o ≤ b.size) (hfit : (b ++ s).size ≤ 65535)
+    {o1 e : Nat} {hl1 hl' : HdrLst} {hb1 hb' : Option PHdrVals}
+    (hr1 : parseHeaders b o (hsNew k) none = (o1, .moreBytes, hl1, hb1))
+    (hr2 : parseHeaders (b ++ s) o1 hl1 hb1 = (e, .ok, hl', hb')) :
+    ∃ hs, hs ≠ [] ∧ HdrBlock (b ++ s) o hs e ∧ hl' = ((hsNew k).acceptAll hs).setCur { state := .fin } ∧
+      hb' = none := by
+  have hrep : ∀ j, j < (hsNew k).hdrs.size → (hsNew k).hdrs[j]! = {} := by
+    intro j hj
+    have hj' : j < k := by simpa [hsNew] using hj
+    show (Array.replicate k ({} : Hdr))[j]! = {}
+    simp [hj']
+  have hok1 : hlsOK b (hsNew k) := ⟨fun j _ hj => by rw [hrep j hj]; exact hdrOK_new b, hdrOK_new b⟩
+  have hpe : hlsPend (hsNew k) none :=
+    ⟨trivial, fun j _ hj => by rw [hrep j hj]; simp [HState.isVal], fun _ => by
+      show ¬ (({} : Hdr).state.isVal); simp [HState.isVal]⟩
+  obtain ⟨hrr, _⟩ := parseHeaders_resume b s o (hsNew k) none hok1 trivial hpe ho hr1
+  rw [hr2] at hrr
+  rcases hf : parseHeaders (b ++ s) o (hsNew k) none with ⟨e2, er2, h2, hb2⟩
+  rw [hf] at hrr
+  obtain ⟨q1, q2, q3, _⟩ := hrr
+  simp only at q1 q2 q3
+  subst q1
+  subst q2
+  have := q3 (Or.inl rfl)
+  cases this
+  exact (hs_block_ok_iff (b ++ s) o k none hfit (Or.inl rfl) e hl' hb').mp hf
+
+/-- a rejected or suspended line is not a line of the grammar (from completeness: the scanner is a function) -/
+theorem hs_line_reject (b : Buf) (o : Nat) (hfit : b.size ≤ 65535) {e : Nat} {er : Err} {h : Hdr}
+    {hb' : Option PHdrVals} (hr : parseHdrLine b o {} none = (e, er, h, hb')) (hne : er ≠ .ok) :
+    ¬ ∃ e' h', HdrLineAt b o e' h' := by
+  rintro ⟨e', h', H⟩
+  have := H.parse none hfit (Or.inl rfl)
+  rw [hr] at this
+  cases this
+  exact hne rfl
+
+/-! ### tests / non-vacuity (closed computations, not part of the general claims) -/
+
+/-- demo text: `Q :z CR LF W: CR LF CR LF X` -/
+def hsDemo : Buf := "Q :z\r\nW:\r\n\r\nX".toUTF8.data
+
+/-- non-vacuity of `HsGeneric` WITH a values object: no line start of the demo text carries a typed name -/
+theorem hsDemo_generic : HsGeneric hsDemo 0 (some {}) := by
+  refine Or.inr (fun o' h => ?_)
+  have hsz : hsDemo.size = 13 := by decide +kernel
+  have hlt : o' < 14 := by
+    rcases h with rfl | ⟨_, c, hc, _⟩
+    · omega
+    · have := get?_lt hc; omega
+  have all : ∀ o', o' < 14 → getHdrType (hsDemo.extract o' (skipTokenDelim hsDemo o' 58)) = 14 := by
+    decide +kernel
+  rw [all o' hlt]
+  unfold IsOther
+  decide
+
+/-- test: ParseHeaders accepts the demo text (values object supplied, capacity 1, two headers), so by
+    `hs_block_accepts_iff` the text `[0, 12)` is a block of the grammar -/
+example : ∃ hs, hs ≠ [] ∧ HdrBlock hsDemo 0 hs 12 := by
+  refine (hs_block_accepts_iff hsDemo 0 1 (some {}) (by decide +kernel) hsDemo_generic 12).mp ?_
+  have h1 : (parseHeaders hsDemo 0 (hsNew 1) (some {})).1 = 12 := by decide +kernel
+  have h2 : (parseHeaders hsDemo 0 (hsNew 1) (some {})).2.1 = .ok := by decide +kernel
+  rcases h : parseHeaders hsDemo 0 (hsNew 1) (some {}) with ⟨e, er, hl', hb'⟩
+  rw [h] at h1 h2
+  simp only at h1 h2
+  subst h1
+  subst h2
+  exact ⟨_, _, rfl⟩
+
+/-- test: white space inside the name is rejected ("bad character"), hence — `hs_line_reject` — no line of the grammar
+    starts there -/
+example : ¬ ∃ e' h', HdrLineAt "a b:c\r\nX".toUTF8.data 0 e' h' := by
+  have h2 : (parseHdrLine "a b:c\r\nX".toUTF8.data 0 {} none).2.1 = .badChar := by decide +kernel
+  rcases h : parseHdrLine "a b:c\r\nX".toUTF8.data 0 {} none with ⟨e, er, hh, hb'⟩
+  rw [h] at h2
+  simp only at h2
+  subst h2
+  exact hs_line_reject _ 0 (by decide +kernel) h (by decide)
+
+/-- test: a complete line at the very end of the buffer is NOT accepted yet (one byte of look-ahead is needed to
+    tell the line end from a fold) -/
+example : (parseHdrLine "a:c\r\n".toUTF8.data 0 {} none).2.1 = .moreBytes := by decide +kernel
+
+/-- test: a resumed call (cut inside the value) — hypotheses of `hs_line_resumed_sound` are satisfiable -/
+example : (parseHdrLine "Subject: a".toUTF8.data 0 {} none).2.1 = .moreBytes ∧
+    (parseHdrLine ("Subject: a".toUTF8.data ++ "b\r\nX".toUTF8.data)
+      (parseHdrLine "Subject: a".toUTF8.data 0 {} none).1
+      (parseHdrLine "Subject: a".toUTF8.data 0 {} none).2.2.1
+      (parseHdrLine "Subject: a".toUTF8.data 0 {} none).2.2.2).2.1 = .ok := by decide +kernel
 
 end Sipsp
